@@ -88,9 +88,63 @@ func compileObs(expr string) Obs {
 	})
 }
 
+// Every evaluation the harness asks for is made through the one-step Search and, in the same breath, through a
+// fresh compilation (Compile + Expression.Search, and MustCompile for every tenth call): whatever a property
+// says about "a search" holds for every entry point, and the entry points must agree. The first few
+// disagreements are reported as violations of the property under check.
+var (
+	activeSum   *Summary
+	apiChecks   int
+	apiReported int
+)
+
 func search(expr string, data any) Obs {
 	progress(expr)
-	return observe(func() (any, error) { return jmespath.Search(expr, data) })
+	o := observe(func() (any, error) { return jmespath.Search(expr, data) })
+	if activeSum == nil || o.Kind == "panic" {
+		return o
+	}
+	apiChecks++
+	oc := observe(func() (any, error) {
+		if apiChecks%10 == 0 {
+			var x *jmespath.Expression
+			var perr any
+			func() {
+				defer func() { perr = recover() }()
+				x = jmespath.MustCompile(expr)
+			}()
+			if perr != nil {
+				_, err := jmespath.Compile(expr)
+				if err == nil {
+					return nil, fmt.Errorf("MustCompile panicked (%v) although Compile succeeds", perr)
+				}
+				return nil, err
+			}
+			return x.Search(data)
+		}
+		x, err := jmespath.Compile(expr)
+		if err != nil {
+			return nil, err
+		}
+		return x.Search(data)
+	})
+	same := o.Kind == oc.Kind
+	if same && o.Kind == "val" {
+		same = sameAny(o.Value, oc.Value)
+	}
+	if same && o.Kind == "err" && !sameCats(o.Cats, oc.Cats) {
+		// two faults in one expression may be reported in either order; a static fault may not
+		for _, c := range append(append([]string{}, o.Cats...), oc.Cats...) {
+			if c == "CSyntax" || c == "CInvalidArity" || c == "CUnknownFunction" {
+				same = false
+			}
+		}
+	}
+	if !same && apiReported < 5 && !strings.Contains(expr, "*") && !strings.Contains(expr, "keys(") && !strings.Contains(expr, "values(") && !strings.Contains(expr, "items(") {
+		apiReported++
+		activeSum.direct("entry-points", expr, data, fmt.Sprintf("one-step Search gives %s, a fresh compilation gives %s", describe(o), describe(oc)))
+	}
+	return o
 }
 
 // ---- Coq term emission ----
